@@ -1,8 +1,338 @@
-//! Implementation runner for the `help` area: add the modes of this area to `dispatch`.
+//! Implementation runner for the `help` area (C12): build the real `clap::Command` from the case's
+//! command spec (standard items + `x-` extension items), render short help / long help / usage /
+//! the DisplayHelp error of `-h`, `--help`, `help <path>` at a fixed terminal width, and print a
+//! canonical projection of the rendered text (parsed here from the text alone) plus the raw text.
+//!
+//! `(help (cmd ...) (width N) (which short|long|usage|(flag-h p..)|(flag-help p..)|(sub-help p..)))`
+//! `(helpf32 TAKEN_MAX W_MAX)`  -- sweep of the f32 comparison of `arg_next_line_help`
+use crate::hex;
+use crate::modes::parse::{build_cmd_with, EnvGuard};
 use crate::sexp::Sx;
+use clap::builder::PossibleValue;
+use clap::error::ErrorKind;
+use clap::{Arg, Command};
+use std::panic::{catch_unwind, AssertUnwindSafe};
 
 /// Returns `Some(result)` when `head` is a mode of this area.
 pub fn dispatch(head: &str, args: &[Sx]) -> Option<String> {
-    let _ = (head, args);
+    match head {
+        "help" => Some(help(args)),
+        "helpf32" => Some(f32sweep(args)),
+        _ => None,
+    }
+}
+
+fn arg_ext(mut a: Arg, items: &[Sx]) -> Arg {
+    let mut pvs: Vec<PossibleValue> = vec![];
+    let mut names: Vec<String> = vec![];
+    for it in &items[1..] {
+        let l = it.args();
+        a = match it.head() {
+            "x-help" => a.help(l[0].string()),
+            "x-long-help" => a.long_help(l[0].string()),
+            "x-heading" => a.help_heading(l[0].string()),
+            "x-hide" => a.hide(true),
+            "x-hide-short" => a.hide_short_help(true),
+            "x-hide-long" => a.hide_long_help(true),
+            "x-hide-pv" => a.hide_possible_values(true),
+            "x-next-line" => a.next_line_help(true),
+            "x-order" => a.display_order(l[0].num() as usize),
+            "x-valname" => {
+                names.extend(l.iter().map(|x| x.string()));
+                a
+            }
+            "x-pv" => {
+                let mut pv = PossibleValue::new(l[0].string());
+                for e in &l[1..] {
+                    match e {
+                        Sx::Sym(s) if s == "hide" => pv = pv.hide(true),
+                        Sx::Bytes(_) => pv = pv.help(e.string()),
+                        _ => panic!("x-pv item"),
+                    }
+                }
+                pvs.push(pv);
+                a
+            }
+            _ => a,
+        };
+    }
+    if !names.is_empty() {
+        a = a.value_names(names);
+    }
+    if !pvs.is_empty() {
+        a = a.value_parser(clap::builder::PossibleValuesParser::new(pvs));
+    }
+    a
+}
+
+fn cmd_ext(mut c: Command, items: &[Sx]) -> Command {
+    for it in &items[1..] {
+        let l = it.args();
+        c = match it.head() {
+            "x-next-line" => c.next_line_help(true),
+            "x-order" => c.display_order(l[0].num() as usize),
+            "x-hide-pv" => c.hide_possible_values(true),
+            "x-sub-heading" => c.subcommand_help_heading(l[0].string()),
+            "x-sub-valname" => c.subcommand_value_name(l[0].string()),
+            _ => c,
+        };
+    }
+    // a fixed trailer keeps the trailing padding of the last row from being trimmed away
+    c.after_help("zz")
+}
+
+fn toks(l: &[&str]) -> String {
+    l.iter().map(|t| hex(t.as_bytes())).collect::<Vec<_>>().join(" ")
+}
+
+/// first whitespace-delimited token of a row, without a trailing comma
+fn row_key(line: &str) -> String {
+    let t = line.trim_start();
+    let k = t.split(' ').next().unwrap_or("");
+    k.trim_end_matches(',').to_string()
+}
+
+fn leading_spaces(line: &str) -> usize {
+    line.len() - line.trim_start_matches(' ').len()
+}
+
+/// column (in chars) of the help text on a row line: the first non-space character after the first
+/// run of >= 2 spaces that follows the left column; the line length when nothing follows the run;
+/// `None` when the left column runs to the end of the line (help is on the next line).
+fn help_col(line: &str) -> Option<usize> {
+    let ch: Vec<char> = line.chars().collect();
+    let mut i = 0;
+    while i < ch.len() && ch[i] == ' ' {
+        i += 1;
+    }
+    while i < ch.len() {
+        if ch[i] == ' ' {
+            let mut j = i;
+            while j < ch.len() && ch[j] == ' ' {
+                j += 1;
+            }
+            if j - i >= 2 || j == ch.len() {
+                return Some(j);
+            }
+            i = j;
+        } else {
+            i += 1;
+        }
+    }
     None
+}
+
+fn is_row_line(line: &str) -> bool {
+    let n = leading_spaces(line);
+    let rest = &line[n..];
+    !rest.is_empty() && (n == 2 || (n == 6 && rest.starts_with("--")))
+}
+
+/// possible values listed in the text block of one row
+fn block_pvs(block: &[&str]) -> Vec<String> {
+    let mut out = vec![];
+    // long form: one `- name[: help]` line per value under `Possible values:`
+    for l in block {
+        let t = l.trim_start();
+        if let Some(r) = t.strip_prefix("- ") {
+            let name = r.split([':', ' ']).next().unwrap_or("");
+            out.push(name.to_string());
+        }
+    }
+    // short form: `[possible values: a, b]`, possibly wrapped over several lines
+    let joined = block.iter().map(|l| l.trim()).collect::<Vec<_>>().join(" ");
+    if let Some(p) = joined.find("[possible values:") {
+        let rest = &joined[p + "[possible values:".len()..];
+        let end = rest.find(']').unwrap_or(rest.len());
+        for n in rest[..end].split(',') {
+            let n = n.trim();
+            if !n.is_empty() {
+                out.push(n.to_string());
+            }
+        }
+    }
+    out
+}
+
+/// canonical projection of a rendered help screen
+fn project_help(text: &str) -> String {
+    let lines: Vec<&str> = text.split('\n').collect();
+    let mut out = String::new();
+    let ui = lines.iter().position(|l| l.starts_with("Usage:"));
+    let about = lines[..ui.unwrap_or(0)].iter().find(|l| !l.trim().is_empty());
+    match about {
+        Some(a) => out.push_str(&format!("(about {})", hex(a.split_whitespace().next().unwrap_or("").as_bytes()))),
+        None => out.push_str("(about none)"),
+    }
+    let Some(ui) = ui else {
+        return out + " (nousage)";
+    };
+    let mut i = ui;
+    let mut utoks: Vec<&str> = vec![];
+    while i < lines.len() && !lines[i].trim().is_empty() {
+        utoks.extend(lines[i].split_whitespace());
+        i += 1;
+    }
+    out.push_str(&format!(" (usage {})", toks(&utoks[1..])));
+    // sections
+    while i < lines.len() {
+        let l = lines[i];
+        if l.trim().is_empty() {
+            i += 1;
+            continue;
+        }
+        if l.starts_with(' ') || !l.ends_with(':') {
+            break; // after-help trailer or anything that is not a heading
+        }
+        out.push_str(&format!(" (sec {}", hex(l[..l.len() - 1].as_bytes())));
+        i += 1;
+        while i < lines.len() {
+            let l = lines[i];
+            if !l.is_empty() && !l.starts_with(' ') {
+                break;
+            }
+            if is_row_line(l) {
+                let mut j = i + 1;
+                while j < lines.len() && (lines[j].is_empty() || lines[j].starts_with(' ')) && !is_row_line(lines[j]) {
+                    j += 1;
+                }
+                let block = &lines[i..j];
+                let col = match help_col(l) {
+                    Some(c) => c.to_string(),
+                    None => {
+                        if block.len() > 1 && block[1].starts_with("          ") && !block[1][10..].starts_with(' ') {
+                            "nl".to_string()
+                        } else {
+                            "none".to_string()
+                        }
+                    }
+                };
+                let pvs = block_pvs(block);
+                let pvs: Vec<&str> = pvs.iter().map(|s| s.as_str()).collect();
+                out.push_str(&format!(" (row {} {} (pv {}))", hex(row_key(l).as_bytes()), col, toks(&pvs)));
+                i = j;
+            } else {
+                i += 1;
+            }
+        }
+        out.push(')');
+    }
+    out
+}
+
+fn project_usage(text: &str) -> String {
+    let t: Vec<&str> = text.split_whitespace().collect();
+    format!("(usage {})", toks(if t.is_empty() { &t } else { &t[1..] }))
+}
+
+fn help(a: &[Sx]) -> String {
+    let mut env = EnvGuard(vec![]);
+    let width = a[1].args()[0].num() as usize;
+    let cmd = match catch_unwind(AssertUnwindSafe(|| {
+        let c = build_cmd_with(a[0].args(), &mut env, &arg_ext, &cmd_ext).term_width(width);
+        let mut probe = c.clone();
+        probe.build();
+        c
+    })) {
+        Ok(c) => c,
+        Err(p) => {
+            let msg = p
+                .downcast_ref::<String>()
+                .cloned()
+                .or_else(|| p.downcast_ref::<&str>().map(|s| s.to_string()))
+                .unwrap_or_default();
+            return format!("INVALID {}", msg.replace(['\n', '\t'], " "));
+        }
+    };
+    let mut cmd = cmd;
+    let which = &a[2].args()[0];
+    let name = cmd.get_name().to_string();
+    let (text, proj) = match which {
+        Sx::Sym(s) if s == "short" => {
+            let t = cmd.render_help().to_string();
+            let p = project_help(&t);
+            (t, p)
+        }
+        Sx::Sym(s) if s == "long" => {
+            let t = cmd.render_long_help().to_string();
+            let p = project_help(&t);
+            (t, p)
+        }
+        Sx::Sym(s) if s == "usage" => {
+            let t = cmd.render_usage().to_string();
+            let p = project_usage(&t);
+            (t, p)
+        }
+        Sx::List(_) => {
+            let path: Vec<String> = which.args().iter().map(|x| x.string()).collect();
+            let mut argv = vec![name];
+            match which.head() {
+                "flag-h" => {
+                    argv.extend(path);
+                    argv.push("-h".into());
+                }
+                "flag-help" => {
+                    argv.extend(path);
+                    argv.push("--help".into());
+                }
+                "sub-help" => {
+                    argv.push("help".into());
+                    argv.extend(path);
+                }
+                x => panic!("which {x}"),
+            }
+            match cmd.try_get_matches_from(argv) {
+                Ok(_) => return "noerr".into(),
+                Err(e) => {
+                    if e.kind() != ErrorKind::DisplayHelp {
+                        return format!("err {}", crate::modes::parse::kind_name(e.kind()));
+                    }
+                    let t = e.render().to_string();
+                    let p = project_help(&t);
+                    (t, p)
+                }
+            }
+        }
+        _ => panic!("which"),
+    };
+    let maxline = text.split('\n').map(|l| l.chars().count()).max().unwrap_or(0);
+    let maxrun = text
+        .split('\n')
+        .map(|l| {
+            let mut best = 0;
+            let mut cur = 0;
+            for c in l.chars() {
+                if c == ' ' {
+                    cur += 1;
+                    best = best.max(cur);
+                } else {
+                    cur = 0;
+                }
+            }
+            best
+        })
+        .max()
+        .unwrap_or(0);
+    format!("ok {} (maxline {}) (maxrun {}) (text {})", proj, maxline, maxrun, hex(text.as_bytes()))
+}
+
+/// the comparison `(taken as f32 / term_w as f32) > 0.40` of `arg_next_line_help` against the exact
+/// rational `5 * taken > 2 * term_w` the model uses, for all `taken <= a`, `1 <= term_w <= b`
+/// and for `term_w = usize::MAX`
+fn f32sweep(a: &[Sx]) -> String {
+    let tmax = a[0].num() as usize;
+    let wmax = a[1].num() as usize;
+    let mut bad = vec![];
+    let mut n = 0u64;
+    for taken in 0..=tmax {
+        for w in (1..=wmax).chain([usize::MAX]) {
+            let f = (taken as f32 / w as f32) > 0.40;
+            let q = 5u128 * (taken as u128) > 2u128 * (w as u128);
+            n += 1;
+            if f != q && bad.len() < 5 {
+                bad.push(format!("({taken} {w})"));
+            }
+        }
+    }
+    format!("f32 checked {} differ ({})", n, bad.join(" "))
 }
